@@ -297,6 +297,8 @@ std::string Exec::snapshot(Obj &o, bool with_solution) {
 		rv = mpq_QSget_solution(o.p, val.p(), x.p(), pi.p(), sl.p(), rc.p()); s += strf("solution rv=%d", rv);
 		if (!rv) { s += " val " + qstr(lib_to_q(val.at(0))); for (int j = 0; j < n; j++) s += " x" + qstr(lib_to_q(x.at(j))) + " d" + qstr(lib_to_q(rc.at(j))); for (int i = 0; i < m; i++) s += " p" + qstr(lib_to_q(pi.at(i))) + " s" + qstr(lib_to_q(sl.at(i))); }
 		s += "\n";
+		// the basis the simplex itself stands on (what the tableau getters talk about), next to the stored one above
+		{ std::vector<int> ord(m + 1, 0); int ro = m ? mpq_QSget_basis_order(o.p, ord.data()) : 1; s += strf("order rv=%d", ro != 0); if (!ro) for (int i = 0; i < m; i++) s += strf(" %d", ord[i]); s += "\n"; }
 	}
 	after_lib_call("query");
 	return s;
